@@ -107,7 +107,7 @@ func c01solveHashed(rv, sv, d *big.Int) (k, e *big.Int, ok bool) {
 }
 
 func TestVX_C01(t *testing.T) {
-	r := vx.Begin("C01", "sign-verify", "signatures with chosen shapes are *solved for*: for wanted (r,s) resp. (r,t) resp. (s,t) with z in Z leading zero bytes each (Z = {0,1,2,3,4,8,16,24,30,31} quick, 0..31 thorough) x fills {minimal, maximal, seeded} and key d from {seeded 32-byte, 1-byte 1/2/255, 31-byte, n-2}: k=s(1+d)+rd, e=r-x([k]G); SignHashed must then produce them and VerifyHashed must accept. SignZa/VerifyZa: e=SM3(za||M) fixed, k chosen, d solved for every z_t and z_s, z_r reached by stepping k. Sign/Verify: d fixed, k stepped until z_r,z_s,z_t in {1 (quick), 2 (thorough)} occurred. Rejected first candidates (k=0, k>=n, r=0, r+k=n), also followed by a candidate whose r has a leading zero byte. Oracle: verify==(true,nil), no panic, 32-byte r,s. Shape=(entry, z_r, z_s, z_t, key length)")
+	r := vx.Begin("C01", "sign-verify", "signatures with chosen shapes are *solved for*: for wanted (r,s) resp. (r,t) resp. (s,t) with z in Z leading zero bytes each (Z = {0,1,2,3,4,8,16,24,30,31} quick, 0..31 thorough) x fills {minimal, maximal, seeded} and key d from {seeded 32-byte, 1-byte 1/2/255, 31-byte, n-2}: k=s(1+d)+rd, e=r-x([k]G); SignHashed must then produce them and VerifyHashed must accept. SignZa/VerifyZa: e=SM3(za||M) fixed, k chosen, d solved for every z_t and z_s, z_r reached by stepping k. Sign/Verify: d fixed, k stepped until z_r,z_s,z_t in {1 (quick), 2 (thorough)} occurred. Rejected first candidates (k=0, k>=n, r=0, r+k=n), also followed by a candidate whose r has a leading zero byte. Keys d and n-d in alternation; za passed as the head of a record holding the key material. Oracle: verify==(true,nil), no panic, 32-byte r,s. Shape=(entry, z_r, z_s, z_t, key length)")
 	defer r.End()
 	selfCheck()
 	if raw, ok := vx.Replay("sign-verify"); ok {
@@ -283,6 +283,53 @@ func TestVX_C01(t *testing.T) {
 			}
 			r.Shape("stream:" + rc.name)
 			r.Sample(cs)
+		}
+	}
+	// ---------------- related keys in alternation (d and n-d: public keys with equal x and opposite y), and za handed over
+	// as the head of a record that continues with the key material: every signature verifies under its own key
+	{
+		n++
+		if vx.MineIdx(n) {
+			d := keys[0].d
+			dn := new(big.Int).Sub(bigN, d)
+			e := vx.Fill("c01pair", 32)
+			kk := b32(modN(bi(vx.Fill("c01pairk", 32))))
+			za := vx.Fill("c01pairza", 32)
+			msg := vx.Fill("c01pairmsg", 20)
+			for round := 0; round < 3; round++ {
+				for _, dv := range []*big.Int{d, dn} {
+					if !sm2ref.ValidKey(dv) {
+						continue
+					}
+					r.Eval(2)
+					px, py := sm2ref.Pub(dv)
+					cs := c01case{Entry: "hashed-stream", Shape: fmt.Sprintf("negated-pair:round%d", round), D: vx.Hex(b32(dv)), E: vx.Hex(e), K: vx.Hex(kk) + vx.Hex(kk)}
+					var ok1, ok2 bool
+					var err error
+					kind, msg2 := vx.Try(func() {
+						var rr, ss []byte
+						rr, ss, err = sm2.SignHashed(stream(kk, kk), b32(dv), e)
+						if err == nil {
+							ok1, _ = sm2.VerifyHashed(px, py, e, rr, ss)
+						}
+						// za || priv and za || pubx || puby as records
+						srec := append(append([]byte{}, za...), b32(dv)...)
+						vrec := append(append(append([]byte{}, za...), px...), py...)
+						r2, s2, e2 := sm2.SignZa(stream(kk, kk), srec[32:], srec[:32], msg)
+						if e2 == nil {
+							ok2, _ = sm2.VerifyZa(vrec[32:64], vrec[64:], vrec[:32], msg, r2, s2)
+						}
+					})
+					if kind != "" || err != nil {
+						r.Violation("c01:pair:fail", fmt.Sprintf("%s %v", msg2, err), cs)
+					} else if !ok1 {
+						r.Violation("c01:pair:verify-reject:hashed", "the library's own signature is rejected when keys d and n-d are used in alternation", cs)
+					} else if !ok2 {
+						r.Violation("c01:pair:verify-reject:za-record", "SignZa / VerifyZa with za as the head of a record that continues with the key material: the library's own signature is rejected", cs)
+					}
+				}
+			}
+			r.Shape("negated-pairs")
 		}
 	}
 	// ---------------- SignZa / VerifyZa: e fixed by (za, M); k chosen; s or t shaped; d solved
